@@ -10,120 +10,73 @@ from concurrent.futures import ThreadPoolExecutor
 
 from ..common import PY, VERIF, MachineryError, repo_env, write_cfg
 
-BASE = dict(Mode='ml', L=1, ShapeRows=2, ShapeCols=2, Alpha='all', Order='row', Buggy=False, BuggyY=False,
-            RunLoop=False, DoEmit=True, Subsets='sample', Perms='all', Part=0, NParts=1, Seed=0)
+BASE = dict(Suite='small', Buggy=False, BuggyY=False, DoEmit=True, Part=0, NParts=1, Seed=0)
 
+EMIT_INVS = ['EmitCase', 'EmitKV', 'EmitReidx', 'EmitPat']
 DESIGN_INVS = ['DefsAgree', 'NestedLoopsOK', 'RowsOK', 'TransposeOK', 'ReorderOK', 'MatvecOK', 'SeqBidxOK',
-               'JoinSliceOK']
+               'JoinSliceOK', 'ReidxOK', 'PatOK', 'KVSameMeshOK', 'KVSymmetricOK']
+GEN_INVS = ['EmitCase', 'NestedLoopsOK', 'MatvecOK']
 LOOP_INVS = ['CursorOK', 'InRangeOK', 'PrefixOK', 'DoneOK']
 
 
-def rep(d, n):
-    return int(str(d) * n)
-
-
 def plan(ctx):
-    """List of runs: (name, constants, invariants, tlc kwargs, kind) with kind in gen|design|negative."""
+    """List of runs: (name, constants, invariants, tlc kwargs, kind) with kind in gen|design|negative.
+    The families behind a suite name are defined in spec/MLStructure.tla (Families)."""
     runs = []
     seed = ctx.seed % 1000
 
-    def gen(name, workers=2, invs=('EmitCase',), sim=None, **kw):
-        """sim = (wanted records, size of the last level's alphabet): TLC's simulator evaluates the invariants on
-        ALL successors of the states it walks through, so one trace yields |alphabet of the last level| cases."""
-        c = dict(BASE, Seed=seed)
-        c.update(kw)
-        tk = dict(workers=workers)
-        if sim:
-            tk.update(simulate=max(1, sim[0] // sim[1]), depth=c['L'] + 1, seed=ctx.seed + 17, workers=1)
-        runs.append((name, c, list(invs), tk, 'gen'))
+    def gen(name, suite, invs=GEN_INVS, workers=2, parts=1, sim=None, depth=None):
+        """sim = number of random walks; TLC's simulator evaluates the invariants on ALL successors of the
+        states it walks through, so one walk yields |alphabet of the last level| cases."""
+        for part in range(parts):
+            c = dict(BASE, Seed=seed, Suite=suite, Part=part, NParts=parts)
+            tk = dict(workers=workers)
+            if sim:
+                tk.update(simulate=sim, depth=depth, seed=ctx.seed + 17, workers=1)
+            runs.append((name if parts == 1 else '%s-p%d' % (name, part), c, list(invs), tk, 'gen'))
 
-    def design(name, workers=2, invs=DESIGN_INVS, **kw):
-        c = dict(BASE, Seed=seed, DoEmit=False)
-        c.update(kw)
-        runs.append((name, c, list(invs), dict(workers=workers), 'design'))
+    def design(name, suite, invs, workers=2, parts=1, only_part=None):
+        for part in range(parts):
+            if only_part is not None and part != only_part:
+                continue
+            c = dict(BASE, Seed=seed, Suite=suite, DoEmit=False, Part=part, NParts=parts)
+            runs.append((name if parts == 1 else '%s-p%d' % (name, part), c, list(invs), dict(workers=workers),
+                         'design'))
 
-    def negative(name, invs, **kw):
-        c = dict(BASE, Seed=seed, DoEmit=False)
+    def negative(name, suite, invs, **kw):
+        c = dict(BASE, Seed=seed, Suite=suite, DoEmit=False)
         c.update(kw)
         runs.append((name, c, list(invs), dict(workers=1), 'negative'))
 
-    T = ctx.thorough
-    GI = ['EmitCase', 'NestedLoopsOK', 'MatvecOK']
-    # ---- the big exhaustive runs first (longest jobs first)
-    nparts = 6 if T else 3
-    for part in range(nparts):
-        gen('2x2-L3-p%d' % part, L=3, ShapeRows=222, ShapeCols=222, Subsets='all' if T else 'sample',
-            Part=part, NParts=nparts, workers=4 if T else 3, invs=GI)
-    if T:
-        for part in range(6):
-            gen('2x2-L4-p%d' % part, L=4, ShapeRows=2222, ShapeCols=2222, Subsets='few', Perms='few',
-                Part=part, NParts=6, workers=4)
-        for part in range(16):
-            gen('3x3.3x3-L2-p%d' % part, L=2, ShapeRows=33, ShapeCols=33, Part=part, NParts=16, workers=4,
-                Subsets='few', Perms='few', invs=GI)
-    gen('2x2-L4-reduced', L=4, ShapeRows=2222, ShapeCols=2222, Alpha='reduced', workers=3)
-    # ---- design checks: odometer machine of ml_nonzero_nd, cross-checks of the definitions
-    design('odo-2x2-L3' + ('' if T else '-reduced'), L=3, ShapeRows=222, ShapeCols=222, RunLoop=True,
-           Alpha='all' if T else 'reduced', invs=LOOP_INVS, workers=4 if T else 2)
-    design('odo-2x2-L4-reduced', L=4, ShapeRows=2222, ShapeCols=2222, RunLoop=True, Alpha='reduced',
-           NParts=1 if T else 3, Part=0, invs=LOOP_INVS, workers=4 if T else 3)
-    design('defs-2x2-L3' + ('' if T else '-reduced'), L=3, ShapeRows=222, ShapeCols=222,
-           Alpha='all' if T else 'reduced', workers=4 if T else 2)
-    design('odo-2x3.3x2-L2-reduced', L=2, ShapeRows=23, ShapeCols=32, Alpha='reduced', RunLoop=True, invs=LOOP_INVS)
-    design('defs-2x3.3x2-L2' + ('' if T else '-reduced'), L=2, ShapeRows=23, ShapeCols=32,
-           Alpha='all' if T else 'reduced', workers=4 if T else 2)
-    if T:
-        design('odo-2x2-L2', L=2, ShapeRows=22, ShapeCols=22, RunLoop=True, invs=LOOP_INVS)
-        design('defs-2x2-L4-reduced', L=4, ShapeRows=2222, ShapeCols=2222, Alpha='reduced', workers=4)
-        design('odo-mixed-L4-reduced', L=4, ShapeRows=2312, ShapeCols=3221, Alpha='reduced', RunLoop=True,
-               invs=LOOP_INVS, workers=4)
-    # ---- exhaustive small families, with the cross-check invariants evaluated on every structure
-    gen('2x2-L1', L=1, ShapeRows=2, ShapeCols=2, Subsets='perm', invs=['EmitCase'] + DESIGN_INVS)
-    gen('2x2-L2', L=2, ShapeRows=22, ShapeCols=22, Subsets='perm', invs=['EmitCase'] + DESIGN_INVS)
-    gen('2x3-L1', L=1, ShapeRows=2, ShapeCols=3, Subsets='perm', invs=['EmitCase'] + DESIGN_INVS)
-    gen('3x3-L1', L=1, ShapeRows=3, ShapeCols=3, Subsets='perm', invs=['EmitCase'] + DESIGN_INVS)
-    if T:
-        gen('3x2-L1', L=1, ShapeRows=3, ShapeCols=2, Subsets='perm', invs=['EmitCase'] + DESIGN_INVS)
-    # ---- two levels of larger / rectangular blocks
-    two = [('2x3.3x2', 23, 32, 63), ('3x2.3x2', 33, 22, 63), ('2x3.2x3', 22, 33, 63), ('3x3.2x2', 32, 32, 15),
-           ('3x2.2x3', 32, 23, 63), ('2x2.3x2', 23, 22, 63), ('2x3.2x2', 22, 32, 15)]
-    for n, (name, rr, cc, last) in enumerate(two):
-        if T:
-            gen('%s-L2' % name, L=2, ShapeRows=rr, ShapeCols=cc, workers=4, invs=GI)
-        elif n < 4:
-            gen('%s-L2-sim' % name, L=2, ShapeRows=rr, ShapeCols=cc, sim=(250, last), invs=GI)
-    if not T:
-        gen('3x3.3x3-L2-sim', L=2, ShapeRows=33, ShapeCols=33, sim=(1, 511), Subsets='few', Perms='few', invs=GI)
-    # ---- other bidx orders (the compact layout follows the order of bidx, whatever it is)
-    for order in ('col', 'rev'):
-        if T:
-            gen('2x2-L3-%s' % order, L=3, ShapeRows=222, ShapeCols=222, Order=order, workers=4, invs=GI)
-            gen('2x2-L4-%s-reduced' % order, L=4, ShapeRows=2222, ShapeCols=2222, Order=order, Alpha='reduced',
-                Subsets='few', Perms='few', workers=4)
-    if not T:
-        gen('2x2-L2-col', L=2, ShapeRows=22, ShapeCols=22, Order='col', Subsets='perm',
-            invs=['EmitCase'] + DESIGN_INVS)
-        gen('2x2-L3-rev-sim', L=3, ShapeRows=222, ShapeCols=222, Order='rev', sim=(200, 15), invs=GI)
-        gen('2x2-L4-col-sim', L=4, ShapeRows=2222, ShapeCols=2222, Order='col', sim=(100, 15))
-    # ---- random structures beyond the exhaustive bounds (TLC -simulate), L <= 6, mixed block shapes
-    k = 10 if T else 1
-    gen('2x2-L4-sim', L=4, ShapeRows=2222, ShapeCols=2222, sim=(300 * k, 15))
-    gen('mixed-L4-sim', L=4, ShapeRows=2312, ShapeCols=3221, sim=(100 * k, 3))
-    gen('2x2-L5-sim', L=5, ShapeRows=22222, ShapeCols=22222, sim=(90 * k, 15))
-    gen('mixed-L5-sim', L=5, ShapeRows=21322, ShapeCols=22231, sim=(60 * k, 3))
-    gen('2x2-L6-sim', L=6, ShapeRows=222222, ShapeCols=222222, sim=(45 * k, 15), Subsets='few', Perms='few')
-    gen('mixed-L6-sim', L=6, ShapeRows=221322, ShapeCols=232212, sim=(45 * k, 15), Subsets='few', Perms='few')
-    gen('mixed-L3-sim', L=3, ShapeRows=232, ShapeCols=323, sim=(250 * k, 63), invs=GI)
-    gen('tall-L3-sim', L=3, ShapeRows=322, ShapeCols=221, sim=(90 * k, 3), invs=GI)
-    # ---- knot-vector pairs, block-size tuples, symmetric patterns / banded / dense
-    gen('kv', Mode='kv', Alpha='all' if T else 'reduced', invs=['EmitKV', 'KVSameMeshOK', 'KVSymmetricOK'], workers=3)
-    gen('reidx', Mode='reidx', invs=['EmitReidx', 'ReidxOK'])
-    gen('pat', Mode='pat', invs=['EmitPat', 'PatOK'])
-    # ---- negative controls: the code as it stands today violates the invariants of the design check
-    negative('neg-odometer', ['CursorOK', 'DoneOK'], L=3, ShapeRows=222, ShapeCols=222, Alpha='reduced', RunLoop=True,
-             Buggy=True)
-    negative('neg-matvec-ylen', ['MatvecOK'], L=2, ShapeRows=32, ShapeCols=22, Alpha='reduced', BuggyY=True)
-    negative('neg-sparsity-mesh-index', ['KVAnyMeshOK'], Mode='kv', Alpha='reduced')
+    if ctx.thorough:
+        # exhaustive: 2x2 patterns L <= 4 (15^3 with all 256 row subsets, 15^4), 3x3 L = 2 (511^2), every pair of
+        # 2x2/2x3/3x2/3x3 two-level shapes, column-major / reversed bidx orders
+        gen('3x3.3x3-L2', '3x3.3x3', workers=4, parts=16)
+        gen('2x2-L4', 'L4-all', invs=['EmitCase'], workers=4, parts=8)
+        gen('2x2-L3', 'L3-all', workers=4, parts=6)
+        gen('two-level', 'two-level', workers=4, parts=6)
+        gen('2x2-L3-orders', 'L3-orders', workers=4, parts=3)
+        gen('2x2-L4-orders-reduced', 'L4-orders', invs=['EmitCase'], workers=4)
+        gen('2x2-L4-reduced', 'L4-reduced', invs=['EmitCase'], workers=4)
+        design('odometer', 'odo-thorough', LOOP_INVS, workers=4, parts=3)
+        design('odometer-L4-reduced', 'odo-L4', LOOP_INVS, workers=4, parts=3)
+        design('definitions', 'defs-thorough', DESIGN_INVS, workers=4, parts=5)
+        gen('random-L3..6', 'sim', sim=1500, depth=7)
+        gen('knot-vector-pairs', 'kv', invs=['EmitKV', 'KVSameMeshOK', 'KVSymmetricOK'], workers=4)
+    else:
+        gen('2x2-L3', 'L3-sample', workers=3, parts=3)
+        gen('2x2-L4-reduced', 'L4-reduced', invs=['EmitCase'], workers=3)
+        design('odometer-L4-reduced', 'odo-L4', LOOP_INVS, workers=3, parts=3, only_part=0)
+        design('odometer', 'odo-quick', LOOP_INVS, workers=2)
+        design('definitions', 'defs-quick', DESIGN_INVS, workers=2)
+        gen('random-L3..6', 'sim', sim=100, depth=7)
+        gen('random-two-level', 'two-level-sim', sim=24, depth=3)
+        gen('knot-vector-pairs', 'kv-reduced', invs=['EmitKV', 'KVSameMeshOK', 'KVSymmetricOK'], workers=2)
+    gen('small', 'small', invs=EMIT_INVS + DESIGN_INVS, workers=3)
+    # negative controls: the code as it stands today violates the invariants of the design check
+    negative('neg-odometer', 'odo-quick', ['CursorOK', 'DoneOK'], Buggy=True)
+    negative('neg-matvec-ylen', 'neg-matvec', ['MatvecOK'], BuggyY=True)
+    negative('neg-sparsity-mesh-index', 'kv-reduced', ['KVAnyMeshOK'])
     return runs
 
 
@@ -169,10 +122,12 @@ def run_worker(ctx, name, recs):
 
 
 def detail_size(d):
+    """Order in which failing inputs are preferred as THE reported example of a signature."""
+    direct = 0 if d.get('via') in (None, 'MLStructure.nonzero', 'MLMatrix.dot') else 1
     for k in ('nnz', 'size'):
         if k in d:
-            return (d[k], len(json.dumps(d, default=str)))
-    return (10 ** 6, len(json.dumps(d, default=str)))
+            return (direct, d[k], len(json.dumps(d, default=str)))
+    return (direct, 10 ** 6, len(json.dumps(d, default=str)))
 
 
 def run(ctx):
@@ -219,14 +174,13 @@ def run(ctx):
         res.stdout = ''
         if not recs:
             raise MachineryError('no cases generated by %s' % name)
-        if consts['Mode'] == 'ml':       # simulation may visit a structure twice
-            seen, uniq = set(), []
-            for tag, v in recs:
-                k = json.dumps([v['bs'], v['bidx']])
-                if k not in seen:
-                    seen.add(k)
-                    uniq.append((tag, v))
-            recs = uniq
+        seen, uniq = set(), []           # simulation may visit a structure twice
+        for tag, v in recs:
+            k = json.dumps([v['bs'], v['bidx']]) if tag == 'CASE' else None
+            if k is None or k not in seen:
+                seen.add(k)
+                uniq.append((tag, v))
+        recs = uniq
         results, late, crashes = run_worker(ctx, name, recs)
         for lt in late:
             for sig, detail in lt['viol']:
@@ -246,7 +200,7 @@ def run(ctx):
             if name not in samples and recs:
                 tag, v = recs[len(recs) // 2]
                 samples[name] = {'run': name, 'tag': tag,
-                                 **{k: v[k] for k in ('bs', 'bidx', 'nz1', 'kv1', 'kv2', 'ij') if k in v}}
+                                 **{k: v[k] for k in ('fam', 'bs', 'bidx', 'nz1', 'kv1', 'kv2', 'ij') if k in v}}
         for r in results:
             for sig, detail in r['viol']:
                 record(sig, detail, name)
@@ -254,7 +208,8 @@ def run(ctx):
     with ThreadPoolExecutor(4 if ctx.thorough else 5) as ex:
         list(ex.map(one, runs))
 
-    for name in ('2x2-L4-reduced', '2x3.3x2-L2-sim', '2x3.3x2-L2-p0', 'kv', 'mixed-L5-sim', '2x2-L3-p0'):
+    for name in ('2x2-L4-reduced', 'random-L3..6', 'knot-vector-pairs', '2x2-L3-p0', 'random-two-level',
+                 'two-level-p0', 'small'):
         if name in samples and len(ctx.samples) < 6:
             ctx.samples.append(samples[name])
     for sig in sorted(viol):
